@@ -27,6 +27,7 @@ def shards(tier, seed):
     for i in range(2 if q else 8):
         out.append(("boundary_rand_%d" % i, dict(kind="boundary", which="rand", count=60 if q else 300)))
     out.append(("decoders", dict(kind="decoders", count=150 if q else 1500)))
+    out.append(("concurrent", dict(kind="concurrent", runs=150 if q else 2000)))
     out.append(("der_fuzz", dict(kind="der_fuzz", count=6000 if q else 120000)))
     return out
 
@@ -276,6 +277,19 @@ def run(ctx, name, kind, **kw):
             for r in vals:
                 for s in (vals if len(vals) < 40 else rng.sample(vals, 12) + [0, n - 1]):
                     check_triplet(ctx, n, r, s)
+    elif kind == "concurrent":
+        from vf import sched as S
+        jobs = []
+        for n in [lib.dom_of(c).n for c in lib.ALL_CURVES[::3]] + [251, 65537, 2 ** 16]:
+            L = blen(n)
+            for _ in range(3):
+                r, s = rng.randrange(n), rng.randrange(n)
+                raw = r.to_bytes(L, "big") + s.to_bytes(L, "big")
+                jobs += [("sigencode_string", util.sigencode_string, (r, s, n), raw), ("sigdecode_string", util.sigdecode_string, (raw, n), (r, s)),
+                         ("sigencode_der", util.sigencode_der, (r, s, n), R.enc_sig(r, s)), ("sigdecode_der", util.sigdecode_der, (R.enc_sig(r, s), n), (r, s)),
+                         ("sigdecode_strings", util.sigdecode_strings, ((raw[:L], raw[L:]), n), (r, s)), ("orderlen", util.orderlen, (n,), L),
+                         ("number_to_string", util.number_to_string, (r, n), raw[:L])]
+        S.concurrent_purity(ctx, S.codes_of(util) + S.codes_of(der, {"remove_sequence", "remove_integer", "read_length", "encode_integer", "encode_sequence", "encode_length"}), jobs, rng, kw["runs"])
     elif kind == "decoders":
         orders = [lib.dom_of(c).n for c in lib.ALL_CURVES]
         for _ in range(kw["count"]):
